@@ -17,6 +17,13 @@ type Seg struct {
 	// Expr, if not empty, is an arithmetic expression whose value, written
 	// in decimal, is Text: the segment is the arithmetic expansion $((Expr)).
 	Expr string `json:"expr,omitempty"`
+	// Style says how the segment is written; it does not change what the
+	// segment means. Quoted segments: "'" single quotes, "\"" double quotes,
+	// "\\" a backslash in front of every character, "$" a double-quoted
+	// variable. Empty unquoted segments: "@" an unquoted $@ and "\"@" a
+	// double-quoted "$@" with no positional parameters (both contribute
+	// nothing, not even a quoted empty part). "" leaves the choice to the check.
+	Style string `json:"style,omitempty"`
 }
 
 // JSON cannot carry text that is not valid UTF-8: it is recorded as
